@@ -89,11 +89,18 @@ func DrawMRZ(t *rapid.T) MRZCase {
 	if layout == "TD3" {
 		f.DocCode = rapid.SampledFrom([]string{"P", "PM", "PD"}).Draw(t, "doccode3")
 	}
-	// optional data only when it does not collide with an extended document number
-	if len(docNo) <= 9 {
-		c1, _ := refmrz.OptCapacity(layout)
-		if c1 > 0 && rapid.Bool().Draw(t, "opt") {
-			f.Opt1 = drawStr(t, mrzAlnum, 1, min(c1, 10), "opt1")
+	// optional data; after an extended document number (continuation, check digit, filler)
+	// whatever room is left may carry further optional data, possibly with a filler inside
+	c1, _ := refmrz.OptCapacity(layout)
+	room := c1
+	if len(docNo) > 9 {
+		room = c1 - (len(docNo) - 9) - 2
+	}
+	if room > 0 && rapid.Bool().Draw(t, "opt") {
+		f.Opt1 = drawStr(t, mrzAlnum, 1, min(room, 10), "opt1")
+		if len(f.Opt1) >= 3 && rapid.IntRange(0, 3).Draw(t, "opt1-filler") == 0 {
+			i := rapid.IntRange(1, len(f.Opt1)-2).Draw(t, "opt1-filler-pos")
+			f.Opt1 = f.Opt1[:i] + "<" + f.Opt1[i+1:]
 		}
 	}
 	if layout == "TD3" && f.Opt1 == "" && rapid.Bool().Draw(t, "optzero") {
